@@ -400,3 +400,21 @@ func c10ExpectFinal(last c10Attempt) (result string, status int, body string) {
 	}
 	return "?", 0, ""
 }
+
+// c10FinalOK: does the client see the outcome of the last attempt that was made (A5/A6)?
+func c10FinalOK(pool *c10PoolCfg, last c10Attempt, res *c10Result) bool {
+	wr, ws, wb := c10ExpectFinal(last)
+	if res.Result == wr && res.Status == ws && res.Body == wb {
+		return true
+	}
+	if last.Kind == "neterr" && res.CancelAsked && res.Result == resultClientError && res.Status == 499 && res.Body == "" {
+		// a transport error that surfaces after the client has gone is the client's
+		return true
+	}
+	if last.Kind == "neterr" && pool.Timeout != "" && res.Result == resultTimeout && res.Status == 408 && res.Body == "" {
+		// under load the pool's time limit may have expired before the (instant) transport
+		// error surfaced: then the attempt timed out — wall-clock upper bounds are not judged
+		return true
+	}
+	return false
+}
